@@ -810,7 +810,7 @@ class Engine:
         self.cur_result = {
             'entry': fid, 'paths': 0, 'instrs': 0, 'asserts': {}, 'covers': {}, 'violations': [],
             'unsupported': [], 'unknown': [], 'unwinding_failures': 0, 'panics': 0, 'samples': [],
-            'ended': {}, 'max_loop': 0,
+            'ended': {}, 'max_loop': 0, 'witnesses': [],
         }
         st = State()
         st.frames.append(Frame(fn, []))
@@ -836,6 +836,18 @@ class Engine:
         r['ended'][status] = r['ended'].get(status, 0) + 1
         for c in st.covers:
             r['covers'][c] = r['covers'].get(c, 0) + 1
+        if status == 'ok' and len(r['witnesses']) < self.opts.get('witnesses', 2) and not st.ghost.get('no_witness'):
+            # a concrete input that drives the real build down this very path (translator validation by native replay)
+            res = self.solver.check(st.pc + st.defs)
+            if res == 'sat':
+                m = self.solver.model()
+                try:
+                    vals = [{'name': n, 'bits': str(self.model_bits(m, term, tid))} for n, tid, term in st.nondet]
+                    r['witnesses'].append({'values': vals, 'covers': sorted(c for c in st.covers if not c.startswith('@')),
+                                           'choices': list(st.ghost.get('choices', []))})
+                except Exception:
+                    pass
+            self.solver.done()
         if len(r['samples']) < 3 and status == 'ok':
             r['samples'].append({'decisions': st.trace[-12:], 'nondet': [n for n, _, _ in st.nondet][:12],
                                  'instrs': st.ninstr, 'covers': sorted(st.covers)})
@@ -1838,12 +1850,34 @@ class Engine:
                 raise PathEnd('assert-false')
             return
         neg = z3.BoolVal(True) if cond is False else z3.Not(cond)
-        res = self.solver.check(st.pc, neg)
-        if res == 'sat' and st.defs:
-            # counterexample of the abstraction: decide again with the exact definitions
+        excl = []      # witness regions of known findings already met on this obligation
+        while True:
+            res = self.solver.check(st.pc + excl, neg)
+            if res == 'sat' and st.defs:
+                # counterexample of the abstraction: decide again with the exact definitions
+                self.solver.done()
+                r['refined'] = r.get('refined', 0) + 1
+                res = self.solver.check(st.pc + st.defs + excl, neg)
+            if res != 'sat':
+                break
+            kf = self.known_match(st, label, self.solver.model())
+            if kf is None:
+                break
+            # a listed finding: report it as such, exclude its witness region and look for anything else
+            m = self.solver.model()
             self.solver.done()
-            r['refined'] = r.get('refined', 0) + 1
-            res = self.solver.check(st.pc + st.defs, neg)
+            finding, region = kf
+            r['known'] = r.get('known', 0) + 1
+            self.report_violation(st, label, m, extra_text='known finding: ' + str(finding.get('id', '')), known=True)
+            if region is None:
+                res = 'unsat'
+                self.solver.check(st.pc)   # keep done() below balanced
+                break
+            excl.append(region)
+            if len(excl) > 8:
+                res = 'unknown'
+                self.solver.check(st.pc)
+                break
         if res == 'sat':
             m = self.solver.model()
             self.solver.done()
@@ -1866,7 +1900,38 @@ class Engine:
                 self.cur_result['samples'].append({'obligation': label, 'result': 'unsat', 'path_conditions': len(st.pc),
                                                    'pos': self.cur_pos(st)})
 
-    def report_violation(self, st, label, model, extra_text=None):
+    def known_match(self, st, label, model):
+        """(finding, exclusion constraint | None) when the model lies in the witness region of a listed known finding"""
+        import re
+        for k in self.opts.get('known') or []:
+            if not re.search(k.get('label', '.*'), label):
+                continue
+            wit = k.get('witness') or {}
+            if not wit:
+                continue
+            ok = True
+            parts = []
+            for name, allowed in wit.items():
+                term = next((t for n, _, t in st.nondet if n == name), None)
+                tid = next((ti for n, ti, _ in st.nondet if n == name), None)
+                if term is None:
+                    ok = False
+                    break
+                got = self.model_bits(model, term, tid)
+                if got not in allowed:
+                    ok = False
+                    break
+                zt = term if is_sym(term) else getattr(term, 't', None)
+                if zt is not None and z3.is_expr(zt):
+                    if z3.is_bv(zt):
+                        parts.append(z3.Or(*[zt == z3.BitVecVal(v, zt.size()) for v in allowed]))
+                    elif z3.is_int(zt):
+                        parts.append(z3.Or(*[zt == z3.IntVal(v) for v in allowed]))
+            if ok:
+                return k, (z3.Not(z3.And(*parts)) if parts else None)
+        return None
+
+    def report_violation(self, st, label, model, extra_text=None, known=False):
         if model is None:
             res = self.solver.check(st.pc + st.defs)
             if res != 'sat':
@@ -1877,12 +1942,12 @@ class Engine:
         vals = []
         for name, tid, term in st.nondet:
             vals.append({'name': name, 'bits': str(self.model_bits(model, term, tid)), 'type': self.types[tid]['str']})
-        nlab = sum(1 for x in self.cur_result['violations'] if x['label'] == label)
+        nlab = sum(1 for x in self.cur_result['violations'] if x['label'] == label and bool(x.get('known')) == known)
         if nlab >= self.opts.get('max_violations_per_label', 2):
             self.cur_result['violations_dropped'] = self.cur_result.get('violations_dropped', 0) + 1
             return
         v = {'label': label, 'values': vals, 'pos': self.cur_pos(st), 'text': extra_text,
-             'covers': sorted(st.covers), 'choices': list(st.ghost.get('choices', []))}
+             'covers': sorted(st.covers), 'choices': list(st.ghost.get('choices', [])), 'known': known}
         if len(self.cur_result['violations']) < self.opts.get('max_violations', 40):
             self.cur_result['violations'].append(v)
 
